@@ -10,6 +10,7 @@ from omegaconf import DictConfig
 from experimaestro.core.objects import Config
 import fasteners
 import threading
+import operator
 import os.path
 from watchdog.events import FileSystemEventHandler
 from typing import Dict
@@ -69,7 +70,11 @@ class CounterTokenDependency(Dependency):
     def __init__(self, token: "CounterToken", count: int):
         super().__init__(token)
         self._token = token
-        self.count = count
+        # The amount is written to (and read back from) the token file as an
+        # integer, and is subtracted from what is available
+        self.count = operator.index(count)
+        if self.count < 0:
+            raise ValueError(f"Negative token request ({count})")
 
     @property
     def name(self):
